@@ -758,7 +758,9 @@ class ExternalTensor(TensorBase, _protocols.TensorProtocol):  # pylint: disable=
         2. Realpath containment: the fully-resolved path (symlinks followed) must also
            stay within the fully-resolved ``base_dir``. This catches symlinks that point
            outside ``base_dir``.
-        3. Hardlink detection: if the resolved path exists and has more than one hard
+        3. Regular file: if the resolved path exists and is not a regular file (a named
+           pipe, a device node, a directory), the load is rejected.
+        4. Hardlink detection: if the resolved path exists and has more than one hard
            link, the load is rejected. An attacker with write access could hard-link a
            sensitive file into the model directory to bypass containment checks.
 
@@ -798,15 +800,23 @@ class ExternalTensor(TensorBase, _protocols.TensorProtocol):  # pylint: disable=
                 f"which is outside the base directory '{base_real}'. "
                 "This may indicate a path traversal attack via a symbolic link."
             )
-        # Check 3: hardlink detection — reject files with multiple hard links.
+        # Check 4: hardlink detection — reject files with multiple hard links.
         # An attacker with write access could hard-link a sensitive file into the
         # model directory so it passes the containment checks above.
         # Uses a single stat call (try/except) to avoid a TOCTOU between
         # os.path.exists() and os.stat().
         try:
-            nlink = os.stat(path_real).st_nlink
+            path_stat = os.stat(path_real)
         except OSError:
-            nlink = 1  # File doesn't exist yet — skip hardlink check
+            path_stat = None  # File doesn't exist yet — skip the checks on the file itself
+        # Check 3: only regular files hold tensor data. Opening a named pipe blocks,
+        # and a device node returns bytes that are not stored in the model directory.
+        if path_stat is not None and not stat.S_ISREG(path_stat.st_mode):
+            raise ValueError(
+                f"External data path '{path}' is not a regular file. "
+                "External tensors can only be read from regular files."
+            )
+        nlink = path_stat.st_nlink if path_stat is not None else 1
         if nlink > 1:
             raise ValueError(
                 f"External data path '{path}' has multiple hard links "
